@@ -360,7 +360,7 @@ def run_check(prop, tier, seed, repo, tmp, replay, scale, t0):
     if evaluations == 0 and not new and not inconclusive:
         print(f"ERROR property={prop}: the run observed nothing (0 evaluations)")
         return 2
-    if not replay:
+    if not replay and repo == "/repo":
         ev = {
             "property_id": prop, "tier": tier, "seed": seed, "level": LEVEL.get(prop, "exploration"),
             "coverage": {
